@@ -10,6 +10,7 @@ ASSUMPTIONS = ['parsing.pyx is executed through pyxlite (typed-variable semantic
 def prepare(tier, seed):
     build.build('plain')
     build.build('asan')
+    build.build('vg')
     build.prune()
     return {}
 
